@@ -114,7 +114,7 @@ func init() {
 
 func runC12(c *Ctx) {
 	rng := c.Rng
-	n := c.N(250, 3000)
+	n := c.N(250, 15000)
 	maxOps := c.Bound(40, 150)
 	dir := "/sys/firmware/efi/efivars"
 	type vdef struct {
